@@ -73,6 +73,48 @@ def run(rep, prog, tier):
     r2(rep, prog)
     r3(rep, prog)
     r4(rep, prog)
+    r5(rep, prog)
+
+
+PHRASE_SCRATCH = {
+    ".positions_buffer": "reusable allocation of the carrying-slop intersection, overwritten before it is read",
+    ".slops_buffer": "same",
+}
+
+
+def r5(rep, prog):
+    """a phrase matches the same documents whether or not it is scored"""
+    import re
+    from ..mergecov import Aliases, fmt_path
+    R = "C03-R5"
+    rep.rule(R, "the phrase matcher has two final steps over the state compute_phrase_match leaves in the scorer — compute_phrase_count when scores are needed, phrase_exists when they are not; 'the answer is the same ... with scoring enabled or disabled' needs both to decide from the same state: every field of PhraseScorer that compute_phrase_match writes and compute_phrase_count reads (scratch buffers tabled) is also read by phrase_exists. A field only the counting sibling looks at (the slop already spent between the first terms, left_slops) makes the two paths accept different documents")
+    P = "tantivy::query::phrase_query::phrase_scorer::PhraseScorer::<TPostings>::"
+    sets = {}
+    for m in ("compute_phrase_match", "compute_phrase_count", "phrase_exists"):
+        b = get_body(rep, prog, R, P + m)
+        if b is None:
+            return
+        al = Aliases(b, {1: "self"})
+        rd, wr = set(), set()
+        for u in al.uses():
+            if u[1] != "self" or not u[2]:
+                continue
+            f = fmt_path(u[2][:1])
+            if u[0] in ("r", "rw", "mv"):
+                rd.add(f)
+            if u[0] in ("w", "rw"):
+                wr.add(f)
+        sets[m] = (rd, wr, b)
+    state = sets["compute_phrase_match"][1] & sets["compute_phrase_count"][0]
+    rep.floor(R, "fields the matcher leaves for its final step", len(state), 3)
+    for f in sorted(state):
+        if f in PHRASE_SCRATCH:
+            rep.ok(R, "PhraseScorer%s (scratch)" % f, PHRASE_SCRATCH[f])
+            continue
+        rep.check(f in sets["phrase_exists"][0], R, "phrase_exists reads PhraseScorer%s like compute_phrase_count" % f, "read by both final steps",
+                  "compute_phrase_match writes PhraseScorer%s and compute_phrase_count reads it, but phrase_exists — the final step used when scoring is disabled — never does: the two paths decide from different state. "
+                  "For a sloppy phrase of three or more terms the counting path charges the slop already spent between the first terms, the existence path grants the full slop again for the last term: "
+                  "`\"a b c\"~1` matches `a x b x c` when counting or collecting doc ids and does not when ranking" % f, site=sets["phrase_exists"][2].span)
 
 
 # AllScorer::new call sites: function -> list of evidence every site in it needs.  An evidence is
